@@ -36,3 +36,83 @@ Lemma tie_dump_dump : TIE_dump_dump =
    (0, "mtbl_reader_destroy(&r)");
    (0, "return(true)")].
 Proof. reflexivity. Qed.
+
+(* src/mtbl_dump.c: main *)
+Lemma tie_dump_main : TIE_dump_main =
+  [(0, "char*fname");
+   (0, "boolsilent=false");
+   (0, "boolhex=false");
+   (0, "uint8_t*key_prefix=NULL");
+   (0, "size_tkey_prefix_len=0");
+   (0, "uint8_t*val_prefix=NULL");
+   (0, "size_tval_prefix_len=0");
+   (0, "size_tkey_min_len=0");
+   (0, "size_tval_min_len=0");
+   (0, "intc");
+   (0, "while((c=getopt(argc,argv,""sxk:v:K:V:""))!=-1)");
+   (1, "switch(c)");
+   (2, "case's':silent=true");
+   (2, "break");
+   (2, "case'x':hex=true");
+   (2, "break");
+   (2, "case'k':if(strlen(optarg)==0)");
+   (3, "fprintf(stderr,""Needanon-emptyargumentto-k\n"")");
+   (3, "return(EXIT_FAILURE)");
+   (2, "if(hex_decode(optarg,&key_prefix,&key_prefix_len)==false)");
+   (3, "fprintf(stderr,""hexdecodingof%sfailed\n"",optarg)");
+   (3, "return(EXIT_FAILURE)");
+   (2, "break");
+   (2, "case'v':if(strlen(optarg)==0)");
+   (3, "fprintf(stderr,""Needanon-emptyargumentto-v\n"")");
+   (3, "return(EXIT_FAILURE)");
+   (2, "if(hex_decode(optarg,&val_prefix,&val_prefix_len)==false)");
+   (3, "fprintf(stderr,""hexdecodingof%sfailed\n"",optarg)");
+   (3, "return(EXIT_FAILURE)");
+   (2, "break");
+   (2, "case'K':if(strlen(optarg)==0)");
+   (3, "fprintf(stderr,""Needanon-emptyargumentto-K\n"")");
+   (3, "return(EXIT_FAILURE)");
+   (2, "key_min_len=atoi(optarg)");
+   (2, "if(key_min_len<1)");
+   (3, "fprintf(stderr,""Badvalueofminimumkeylength:%s\n"",optarg)");
+   (3, "return(EXIT_FAILURE)");
+   (2, "break");
+   (2, "case'V':if(strlen(optarg)==0)");
+   (3, "fprintf(stderr,""Needanon-emptyargumentto-K\n"")");
+   (3, "return(EXIT_FAILURE)");
+   (2, "val_min_len=atoi(optarg)");
+   (2, "if(val_min_len<1)");
+   (3, "fprintf(stderr,""Badvalueofminimumvallength:%s\n"",optarg)");
+   (3, "return(EXIT_FAILURE)");
+   (2, "break");
+   (2, "default:usage()");
+   (0, "if(optind>=argc)usage()");
+   (0, "fname=argv[optind]");
+   (0, "if(!dump(fname,silent,hex,key_prefix,key_prefix_len,val_prefix,val_prefix_len,key_min_len,val_min_len))return(EXIT_FAILURE)");
+   (0, "return(EXIT_SUCCESS)")].
+Proof. reflexivity. Qed.
+
+(* src/mtbl_dump.c: print_hex_string *)
+Lemma tie_dump_print_hex : TIE_dump_print_hex =
+  [(0, "uint8_t*str=(uint8_t*)data");
+   (0, "assert(len<4294967295)");
+   (0, "fprintf(out,""%08x:"",(unsignedint)len)");
+   (0, "while(len--!=0)");
+   (1, "unsignedc=*(str++)");
+   (1, "fprintf(out,""%02x"",c)");
+   (1, "if(len>0)fputc('-',stdout)")].
+Proof. reflexivity. Qed.
+
+(* libmy/print_string.h: print_string *)
+Lemma tie_dump_print_string : TIE_dump_print_string =
+  [(0, "uint8_t*str=(uint8_t*)data");
+   (0, "fputc('""',out)");
+   (0, "while(len--!=0)");
+   (1, "unsignedc=*(str++)");
+   (1, "if(isprint(c))");
+   (2, "if(c=='""')fputs(""\\\"""",out)");
+   (2, "elsefputc(c,out)");
+   (1, "else");
+   (2, "fprintf(out,""\\x%02x"",c)");
+   (0, "fputc('""',out)")].
+Proof. reflexivity. Qed.
